@@ -33,7 +33,12 @@ RULE_ADDED = (
               'its own root; padding-like ends of the QE auth data '
               ' '
               'Round 8: one key in eight has a coordinate beginning or ending like an encoding '
-              'marker (00/02/03/04). ')
+              'marker (00/02/03/04). '
+              ' '
+              'Round 9: half of the genuine chains are validated again from fresh objects after'
+              ' the clock moved beyond / before the validity period, and once more with the clo'
+              'ck back; certificates re-issued by an Ed25519 / Ed448 / RSA / P-384 / P-521 / se'
+              'cp256k1 key. ')
 RULE = RULE + " " + RULE_ADDED.strip()
 ASSUMPTIONS = [
     "oracle: pv/oracle/certv2.py; X.509 parsing itself is shared (cryptography), signature "
@@ -57,7 +62,8 @@ CORRUPTIONS = ["flip-quote", "flip-quote-report-data", "flip-quote-signature", "
                "quote-extended", "auth-data-extended", "attacker-branch-under-non-x509",
                "root-of-other-kind", "quote-hash-at-offset", "att-hash-at-offset",
                "wrong-root-extra-targets", "flip-x509-extra-targets",
-               "attacker-chain-with-own-root-embedded", "attacker-chain-with-own-root-embedded"]
+               "attacker-chain-with-own-root-embedded", "attacker-chain-with-own-root-embedded",
+               "cert-by-key-of-another-algorithm", "cert-by-key-of-another-algorithm"]
 
 
 # process time zones of the shards (None: as inherited, UTC in this sandbox): validity is a
@@ -182,6 +188,16 @@ def corrupt(rng, m, doc, kind):
         issuer_cn = "root" if i == 0 else "ca%d" % (i - 1)
         c2 = g.make_cert("ca%d" % i, m.cert_keys[i].public_key(), issuer_cn, g.new_key(rng),
                          serial=99)
+        certs[i]["message"] = g.pem_body(c2)
+        return d, root, certs[i]["name"]
+    if kind == "cert-by-key-of-another-algorithm":
+        # the same certificate (subject, key, period) re-issued under the certifier's name
+        # by someone else's key of another signature algorithm: whatever the certifier's
+        # key can or cannot verify, it did not sign this
+        i = rng.randrange(len(m.certs))
+        issuer_cn = "root" if i == 0 else "ca%d" % (i - 1)
+        alg, key = g.other_algorithm_key(rng)
+        c2 = g.make_cert("ca%d" % i, m.cert_keys[i].public_key(), issuer_cn, key, serial=98)
         certs[i]["message"] = g.pem_body(c2)
         return d, root, certs[i]["name"]
     if kind in ("leaf-p384", "leaf-secp256k1"):
@@ -426,12 +442,12 @@ class shifted_clock:
             def now(cls, tz=None):
                 return _dt.datetime.now(tz) + off
         cv2.datetime = ShiftedDatetime
+        self.prev_off = g.CLOCK_OFFSET
         g.CLOCK_OFFSET = off
 
     def __exit__(self, *a):
-        import datetime as _dt
         self.cv2.datetime = self.saved
-        g.CLOCK_OFFSET = _dt.timedelta(0)
+        g.CLOCK_OFFSET = self.prev_off
 
 
 def run_case(acc, cseed, tmpdir):
@@ -456,6 +472,20 @@ def run_case_at(acc, cseed, tmpdir, rng, clock):
     if gv is not None and not gv[0]:
         acc.violation("refused-valid-chain:genuine-by-construction", {"got": gv[1]}, case)
     acc.distinct.add("genuine|%d|%s|%s" % (len(m.certs), key_form, clock))
+    if gv is not None and gv[0] and rng.random() < 0.5:
+        # time passes: the very same document, loaded afresh in the same process, is
+        # validated again once the clock is beyond (or before) its certificates' validity -
+        # what was established earlier about these certificates says nothing about now
+        import datetime as _dt
+        move = rng.choice([367, 400, 5000, -32, -400])
+        acc.count("genuine_chains_validated_again_after_the_clock_moved")
+        with shifted_clock(g.CLOCK_OFFSET + _dt.timedelta(days=move)):
+            compare(acc, doc, m.root_cert, tmpdir, "genuine-then-clock%+dd" % move, case)
+        # ... and back: it is valid again
+        gv3 = compare(acc, doc, m.root_cert, tmpdir, "genuine-clock-back", case)
+        if gv3 is not None and not gv3[0]:
+            acc.violation("refused-valid-chain:genuine-after-the-clock-came-back",
+                          {"got": gv3[1]}, case)
     if len(acc.samples) < 1:
         acc.sample({"certificate": {k: (v if k != "elements" else [
             {kk: (vv[:80] + "..." if isinstance(vv, str) and len(vv) > 80 else vv)
